@@ -168,6 +168,17 @@ def r27_4(ctx, rep):
     compile_walk_total(ctx, rep, "R27.4")
 
 
+@SPEC.rule(
+    "R27.5",
+    "every compile merges freshly parsed trees: no function of casadi/api.py writes a module-level container or is wrapped in a caching "
+    "decorator — Tree.extend swaps placeholders into the nodes it is given, so a parsed library tree kept between two compiles carries the "
+    "classes the first project declared `within` it into the second",
+)
+def r27_5(ctx, rep):
+    from .c25 import module_state_free
+    module_state_free(ctx, rep, "R27.5", "src/pymoca/backends/casadi/api.py", "the CasADi API")
+
+
 # -- seeded variants ---------------------------------------------------------
 from ._mut import delete_stmt_where, replace_in_func  # noqa: E402
 
